@@ -164,6 +164,12 @@ pub fn table_all() -> MandTable {
             _ => Mand::Final(0),
         };
     }
+    // the largest data lengths a manager can declare (8-bit arithmetic on them must not overflow)
+    t.t[0xF0] = Mand::NonFinal(254);
+    t.t[0xF4] = Mand::NonFinal(255);
+    t.t[0xF8] = Mand::NonFinal(253);
+    t.t[0xF1] = Mand::Final(255);
+    t.t[0xF5] = Mand::Final(254);
     t
 }
 
@@ -171,6 +177,8 @@ pub fn table_some() -> MandTable {
     let mut t = MandTable::signalisation();
     t.t[0x10] = Mand::NonFinal(2);
     t.t[0x11] = Mand::Final(3);
+    t.t[0xF4] = Mand::NonFinal(255);
+    t.t[0xF1] = Mand::Final(255);
     t
 }
 
@@ -233,7 +241,7 @@ pub fn structured_tail(rng: &mut Rng, w: u16, n: usize, st: &RxState) -> Vec<u8>
     let push_type = |rng: &mut Rng, t: &mut Vec<u8>| {
         let ty: u16 = match rng.below(10) {
             0 => rng.below(0x100) as u16,                       // mandatory
-            1 => [0x0081u16, 0x0082, 0x0010, 0x0011][rng.below(4)],
+            1 => [0x0081u16, 0x0082, 0x0010, 0x0011, 0x00F0, 0x00F4, 0x00F8, 0x00F1, 0x00F5, 0x00F4][rng.below(10)],
             2 => ((1 + rng.below(5)) << 8) as u16 | rng.byte() as u16, // optional, every H-LEN
             3 => 0x0600,
             4 => 0x05FF,
